@@ -3,6 +3,7 @@ package main
 // K:F  the session's entry points.  S:<ibgp|rs session> C<import chain>|<export chain> then ops
 //	i<pfx>=<path>  a route of the session's peer (Adj-RIB-In.AddPath)   o<pfx>=<path>  a route of another source (Loc-RIB)
 //	m<chain>  fsmAddressFamily.replaceImportFilterChain    e<chain>  fsmAddressFamily.replaceExportFilterChain
+//	D  the session goes down (dispose)   U  it is (re-)established (init)   Z (first op only)  the family starts down
 //	observation per op:  <stream>#<view>#<adj-rib-in before>#<loc-rib before>#<loc-rib after>#<adj-rib-out after>
 //	stream = calls the Loc-RIB made on a spy registered like the Adj-RIB-Out; view = the Loc-RIB's best paths (for e)
 
@@ -24,7 +25,7 @@ type fam struct {
 	spy *aro.Rec
 }
 
-func newFam(s aro.Sess, imp, exp aro.Chain) *fam {
+func newFam(s aro.Sess, imp, exp aro.Chain, down bool) *fam {
 	lr := locRIB.New("c12f")
 	peerASN := uint32(65100)
 	if s.IBGP() {
@@ -34,7 +35,7 @@ func newFam(s aro.Sess, imp, exp aro.Chain) *fam {
 	x.f = server.VerifC12NewFamily(server.VerifC12Config{
 		LocalASN: aro.LocalASN, PeerASN: peerASN, RouterID: aro.LocalIP, PeerIP: aro.IP(aro.PeerIP), LocalIP: aro.IP(aro.LocalIP),
 		RouteServerClient: s.Kind == "rs", AddPathRX: true, VRF: vrf.NewUntrackedVRF("c12f", 0), RIB: lr,
-		Import: imp.Build(), Export: exp.Build(), Client: aro.NewRec(),
+		Import: imp.Build(), Export: exp.Build(), Client: aro.NewRec(), StartDown: down,
 	})
 	lr.RegisterWithOptions(x.spy, s.ClientOptions())
 	return x
@@ -43,7 +44,13 @@ func newFam(s aro.Sess, imp, exp aro.Chain) *fam {
 func (x *fam) apply(o op) {
 	switch o.kind {
 	case 'i':
-		x.f.VerifC12AdjRIBIn().AddPath(aro.Pfx(o.pfx), o.path.Build())
+		if x.f.VerifC12IsUp() {
+			x.f.VerifC12AdjRIBIn().AddPath(aro.Pfx(o.pfx), o.path.Build())
+		}
+	case 'D':
+		x.f.VerifC12Down()
+	case 'U':
+		x.f.VerifC12Up()
 	case 'o':
 		x.lr.AddPath(aro.Pfx(o.pfx), o.path.Build())
 	case 'm':
@@ -54,34 +61,49 @@ func (x *fam) apply(o op) {
 }
 
 func runFamily(c tcase) (obs string, v *verdict, nontrivial bool) {
-	x := newFam(c.sess, c.chain, c.chain2)
+	startDown := len(c.ops) > 0 && c.ops[0].kind == 'Z'
+	x := newFam(c.sess, c.chain, c.chain2, startDown)
 	imp, exp := c.chain, c.chain2
+	lastUp := -1 // index of the op after which the current Adj-RIB-In started to fill
 	var out []string
 	for i, o := range c.ops {
-		rb := dumpSorted(x.f.VerifC12AdjRIBIn().Dump(), true)
+		rb, ta := "-", "-"
+		if x.f.VerifC12IsUp() {
+			rb = dumpSorted(x.f.VerifC12AdjRIBIn().Dump(), true)
+		}
 		lb := dumpSorted(x.lr.Dump(), false)
 		view := "-"
-		if o.kind == 'e' {
+		if o.kind == 'e' || o.kind == 'U' {
 			view = aro.LocView(x.lr, c.sess)
 		}
+		wasUp := x.f.VerifC12IsUp()
 		x.apply(o)
+		if o.kind == 'U' && !wasUp {
+			lastUp = i
+		}
 		stream := aro.JoinOrDash(x.spy.Take(), ",")
 		la := dumpSorted(x.lr.Dump(), false)
-		ta := dumpSorted(x.f.VerifC12AdjRIBOut().Dump(), false)
+		if x.f.VerifC12IsUp() {
+			ta = dumpSorted(x.f.VerifC12AdjRIBOut().Dump(), false)
+		}
 		out = append(out, fmt.Sprintf("%s#%s#%s#%s#%s#%s", stream, view, rb, lb, la, ta))
-		if o.kind != 'm' && o.kind != 'e' {
+		switch o.kind {
+		case 'm':
+			imp = o.chain
+		case 'e':
+			exp = o.chain
+		case 'U':
+		default:
 			continue
 		}
-		if o.kind == 'm' {
-			imp = o.chain
-		} else {
-			exp = o.chain
+		if !x.f.VerifC12IsUp() {
+			continue // nothing to look at while down; the next U is checked
 		}
 		nontrivial = true
-		// ---- spec oracle: a session established with the policies now in force, fed the same routes
-		y := newFam(c.sess, imp, exp)
-		for _, p := range c.ops[:i] {
-			if p.kind == 'i' || p.kind == 'o' {
+		// ---- spec oracle: a session established with the policies now in force, holding the same routes
+		y := newFam(c.sess, imp, exp, false)
+		for j, p := range c.ops[:i] {
+			if p.kind == 'o' || (p.kind == 'i' && j > lastUp) {
 				y.apply(p)
 			}
 		}
@@ -109,10 +131,31 @@ func genFamily(r *hx.RNG, t *hx.Trace) tcase {
 	t.Count("F_sess_" + c.sess.Kind)
 	o := aro.GenOpts{Extras: true}
 	used := map[string]bool{}
-	n := 5 + r.Intn(9)
+	n := 5 + r.Intn(11)
+	up := true
+	if r.Chance(25) {
+		c.ops = append(c.ops, op{kind: 'Z'})
+		up = false
+	}
 	for i := 0; i < n; i++ {
 		k := r.Intn(100)
+		if k < 25 && !up {
+			k = 25 + r.Intn(75) // the peer cannot send routes while the session is down
+		}
 		switch {
+		case k >= 88:
+			if up {
+				c.ops = append(c.ops, op{kind: 'D'})
+				for key := range used { // the Adj-RIB-In is gone
+					if key[0] == 'i' {
+						delete(used, key)
+					}
+				}
+			} else {
+				c.ops = append(c.ops, op{kind: 'U'})
+			}
+			up = !up
+			t.Count("F_updown")
 		case k < 25:
 			p := aro.GenPath(r, o)
 			p.Src, p.BGPID = aro.PeerIP, aro.PeerIP
@@ -136,7 +179,7 @@ func genFamily(r *hx.RNG, t *hx.Trace) tcase {
 			}
 			used[key] = true
 			c.ops = append(c.ops, op{kind: 'o', pfx: pfx, path: p})
-		case k < 75:
+		case k < 70:
 			c.ops = append(c.ops, op{kind: 'm', chain: pick()})
 			t.Count("F_replace_import")
 		default:
